@@ -28,7 +28,14 @@ ASSUMPTIONS = [
     "numpy.linalg.eigvalsh / eigvals / svd and scipy.linalg.eigvalsh(A, B) of the dense matrix are the trusted spectra",
     "iterative backends are only asked for k <= d-2 and spectra whose distinct values are separated by >= 0.4 (unit scale)",
     "sigma is only combined with which in {None, 'TR'} and is placed strictly inside a spectral gap (or outside the spectrum)",
-    "ARPACK / lobpcg non-convergence exceptions are counted rejections",
+    "non-convergence reported by the backend (ArpackNoConvergence, lobpcg's 'not reaching the requested tolerance' warning) is a counted rejection",
+    "ARPACK which='SM' without shift-invert (scipy documents shift-invert for that purpose) is only held to the strict selection "
+    "oracle while its Krylov dimension spans the space (d <= 20); beyond that only genuineness of the returned pairs is demanded",
+    "a single-vector Krylov solver cannot see multiplicities: on degenerate spectra a missing copy of a degenerate level is reported "
+    "under its own clause (finding C17-h) while skipped levels / non-eigenvalues stay ordinary violations",
+    "shift-invert through a LinearOperator (inner gmres solve) and the numpy backend on a LinearOperator are not claimed (rejected)",
+    "rsvd / estimate_rank are only held to exactness on exact rank-r inputs with singular values in [0.5, 2]; estimate_rank(use_sli=True) "
+    "(scipy's randomised, unseeded estimator, documented ~8 too high) is not checked",
     "the matrix exponential oracle is an own scaling-and-squaring Taylor series (Hermitian: numpy eigh), |A|_2 <= 3",
     "lobpcg is run with explicit tol=1e-10, maxiter=400 (its default 30 iterations promise no accuracy)",
 ]
@@ -1754,7 +1761,7 @@ def _run_rsvd(case):
     sv = np.asarray(sv)
     if k is not None and sv.shape != (int(k),):
         raise Violation("count", got=list(sv.shape), want=[int(k)], **info)
-    tol = 1e-8
+    tol = 1e-7  # randomised range finder on an exact rank-r input: observed <= 2e-10
     full = np.zeros(max(sv.size, r))
     full[:r] = sv_true
     # interlacing: singular values of a projection never exceed the true ones
@@ -1782,11 +1789,11 @@ def _run_rsvd(case):
         # the part carrying non-negligible singular values is a genuine triplet set
         keep = sv > 1e-6 * sv_true[0]
         if mode != "k-":
-            err = max(err, check_triplets(M, U[:, keep], sv[keep], VH[keep, :], 1e-7, **info))
+            err = max(err, check_triplets(M, U[:, keep], sv[keep], VH[keep, :], INV64, **info))
         else:
             Uk, Vk = U[:, keep].astype(np.complex128), VH[keep, :].astype(np.complex128)
             ge = max(fro(Uk.conj().T @ Uk - np.eye(Uk.shape[1])), fro(Vk @ Vk.conj().T - np.eye(Vk.shape[0])))
-            if not ge <= 1e-7:
+            if not ge <= INV64:
                 raise Violation("gram", err=ge, **info)
     return {"nt": True, "cls": ["mode=" + mode, "uv=" + str(case["compute_uv"]), "flipped" if mm < nn else "tall", "q=%d" % case["q"], "p=%d" % case["p"],
                                 "cplx" if cplx else "real"], "err": err}
@@ -1855,7 +1862,7 @@ def _run_estimate_rank(case):
             # the returned right vectors span the row space: A (1 - V V+) == 0
             Mc = M.astype(np.complex128)
             err = fro(Mc - (Mc @ VH.conj().T) @ VH) / fro(Mc)
-            if not err <= 1e-7:
+            if not err <= INV64:
                 raise Violation("rowspace", err=err, **info)
     return {"nt": True, "cls": ["rank-true=%d" % (rank - r) if r <= kmax else "capped", "vecs=" + str(case["get_vectors"]),
                                 "qb=" + str(case["use_qb"])], "err": err}
